@@ -1,6 +1,7 @@
 package linux
 
 import (
+	"maps"
 	"slices"
 
 	"github.com/hknutzen/Netspoc-Approve/go/pkg/deviceconf"
@@ -16,14 +17,16 @@ func (a *config) MergeSpoc(d deviceconf.Config) deviceconf.Config {
 			a.routes = append(a.routes, r)
 		}
 	}
-	for tName, bChains := range b.iptables {
+	for _, tName := range slices.Sorted(maps.Keys(b.iptables)) {
+		bChains := b.iptables[tName]
 		aChains := a.iptables[tName]
 		if aChains == nil {
 			errlog.Info("Adding all chains of table %q", tName)
 			a.iptables[tName] = bChains
 			continue
 		}
-		for cName, bChain := range bChains {
+		for _, cName := range slices.Sorted(maps.Keys(bChains)) {
+			bChain := bChains[cName]
 			aChain := aChains[cName]
 			if aChain == nil {
 				errlog.Info("Adding chain %q of table %q", cName, tName)
